@@ -18,7 +18,7 @@ func init() {
 			"(second hex argument, first is the token) and, on the same shard, the value written to the new holder; every success return is cut by the write of constant 0 to the old counter and by the call that removes the create role from the old holder's list; " +
 			"the new holder gets the role. R3 (next owner): the counter is set to the number decoded from Arguments[1] and the create role is added. Does NOT decide: uniqueness over histories (late or duplicated delivery), wrap-around at 2^64.",
 		Trusted: []string{"A-deps", "single-creator discipline of the protocol"},
-		Rules:   []func(*Ctx){c07r1, c07r2},
+		Rules:   []func(*Ctx){c07r1, c07r2, c07r4},
 	})
 }
 
@@ -446,7 +446,7 @@ func handOverRules(c *Ctx, rule, rule3 string) {
 			for _, rcall := range roleOps {
 				switch {
 				case rcall.acct == x.dst && rcall.deletes:
-					if chainCutsSuccess(rcall) {
+					if chainCutsSuccess(rcall) && rcall.removalSaved {
 						removed = true
 					}
 				case rcall.acct != x.dst && rcall.adds:
@@ -524,7 +524,9 @@ type roleCall struct {
 	acct    string
 	deletes bool
 	adds    bool
-	chain   []callLevel // the calls leading from the routine down to the role operation, outermost first
+	// for a removal: the shortened list is written back on every successful path of the removing routine
+	removalSaved bool
+	chain        []callLevel // the calls leading from the routine down to the role operation, outermost first
 }
 
 type callLevel struct {
@@ -581,6 +583,29 @@ func roleCallsRec(p *Prog, e *Env, role string, above []callLevel, depth int) []
 					if s2 := c2.Call.StaticCallee(); s2 != nil {
 						if isRoleRemover(s2) && strings.Contains(sub.termList(c2.Call.Args)+appendedElemsAll(sub, c2.Call.Args), q) {
 							rc.deletes = true
+							// the shortened list is persisted: after the removal no success return of this routine is reachable
+							// without a call that writes storage (a guard "nothing left, do not write" would keep the role stored)
+							saves := map[ssa.Instruction]bool{}
+							for _, b3 := range sc.Blocks {
+								for _, i3 := range b3.Instrs {
+									if c3, ok := i3.(*ssa.Call); ok && c3 != c2 {
+										if s3 := c3.Call.StaticCallee(); s3 != nil && reachesInvoke(p, s3, "AccountDataHandler.SaveKeyValue", 0) {
+											saves[i3] = true
+										}
+										if InvokeName(c3) == "AccountDataHandler.SaveKeyValue" {
+											saves[i3] = true
+										}
+									}
+								}
+							}
+							rc.removalSaved = len(saves) > 0
+							for _, r3 := range returnsOf(sc) {
+								if isSuccessReturn(r3) && reachesAvoiding(sc, c2, r3, saves, errorEdgesOfFn(sc)) {
+									if errCallOf(retval(r3, len(r3.Results)-1)) == nil || !saves[ssa.Instruction(errCallOf(retval(r3, len(r3.Results)-1)))] {
+										rc.removalSaved = false
+									}
+								}
+							}
 						}
 						if reachesInvoke(p, s2, "AccountDataHandler.SaveKeyValue", 0) {
 							savesRoles = true
@@ -682,4 +707,13 @@ func collectHexArgs(e *Env, v ssa.Value, out *[]string, depth int) {
 			*out = append(*out, e.Term(x.Call.Args[0]))
 		}
 	}
+}
+
+
+// c07r4: "single creator": ESDTNFTCreate is cut by the create-role check (and, for quantity > 1, the add-quantity check does
+// not replace it) — C03-R1's obligations for the create function.
+func c07r4(c *Ctx) {
+	c.shareRule(c03r1, "C03-R1", "C07-R4", "every effect of ESDTNFTCreate is cut by the create-role check on the sender", func(o Oblig) bool {
+		return strings.HasPrefix(o.Construct, "ESDTNFTCreate") || strings.Contains(o.Func, "esdtNFTCreate)")
+	})
 }
